@@ -3,6 +3,7 @@ import base64
 import json
 import random
 import common
+from common import enc_list, dec_list
 import prov
 
 RULE = ("cases: histories of authorize / redeem / refresh-with-scope / chained refresh / token exchange (owning or another client, access or "
@@ -65,7 +66,74 @@ def cases(rng, tier):
              "n": rng.randint(8, 22 if tier == "quick" else 40)} for _ in range(n)]
     out += [{"t": "hist", "oidc": rng.random() < 0.6, "jwt": False, "usage": "exchange", "gen_seed": rng.getrandbits(48),
              "n": rng.randint(10, 24 if tier == "quick" else 40)} for _ in range(n // 2)]
+    # client-credentials and password grants (OAuth2 token endpoint): the client's configured scopes, whatever the request says
+    for cl in G2_CLIENTS:
+        for gt in ("client_credentials", "password"):
+            out.append({"t": "grant2", "client": cl, "grant": gt, "req_scope": rng.choice([None, ["openid", "profile"], ["foo"]])})
     return out
+
+
+G2_CLIENTS = {"g_list": ["email", "profile"], "g_empty": [], "g_none": None, "g_wide": ["openid", "profile", "email", "address", "phone", "offline_access", "foo"]}
+_g2 = None
+
+
+def _g2_server():
+    """one provider per process with the OAuth2 token endpoint, user/password authentication and the four clients; every request uses a client
+    of its own session slot (the helpers cannot serve a second request for the same client session)"""
+    global _g2
+    import os, json as _json
+    import opbase
+    from idpyoidc.server.oauth2.token import Token as OToken
+    pw = os.path.join(opbase.BASEDIR, "passwd.json")
+    _json.dump({"diana": "krall"}, open(pw, "w"))
+    s = opbase.make_op(jwt_tokens=True, more_endpoints={"token": {"path": "token", "class": OToken, "kwargs": {"client_authn_method": opbase.CLIAUTH}}},
+                       extra={"authentication": {"user": {"acr": "urn:oasis:names:tc:SAML:2.0:ac:classes:InternetProtocolPassword",
+                                                            "class": "idpyoidc.server.user_authn.user.UserPass",
+                                                            "kwargs": {"db_conf": {"class": "idpyoidc.server.util.JSONDictDB", "kwargs": {"filename": pw}}}}}})
+    return s
+
+
+def _grant2_impl(c):
+    s = _g2_server()
+    ctx = s.context
+    cid = c["client"] + "_" + c["grant"]
+    rec = dict(ctx.cdb["client_1"], client_id=cid)
+    rec.pop("allowed_scopes", None)
+    if G2_CLIENTS[c["client"]] is not None:
+        rec["allowed_scopes"] = list(G2_CLIENTS[c["client"]])
+    rec["grant_types_supported"] = ["client_credentials", "password", "authorization_code"]
+    ctx.cdb[cid] = rec
+    ctx.keyjar.add_symmetric(cid, rec["client_secret"])
+    ep = s.get_endpoint("token")
+    req = dict(client_id=cid, client_secret=rec["client_secret"], grant_type=c["grant"])
+    if c["grant"] == "password":
+        req.update(username="diana", password="krall")
+    if c["req_scope"]:
+        req["scope"] = " ".join(c["req_scope"])
+    o = {}
+    try:
+        pr = ep.parse_request(req)
+        if "error" in pr:
+            return {"r": "refused", "how": str(pr.get("error"))}
+        out = ep.process_request(pr)
+        ra = out.get("response_args") if isinstance(out, dict) and "response_args" in out else out
+        if "access_token" not in ra:
+            return {"r": "refused", "how": str(ra)[:80]}
+        at = ra["access_token"]
+        sc = ra.get("scope")
+        o["response"] = sorted(sc.split(" ") if isinstance(sc, str) else (sc or []))
+        js = _jwt_scope(at)
+        o["jwt"] = sorted(js) if js is not None else None
+        g = ctx.session_manager.get_session_info_by_token(at, grant=True, handler_key="access_token")["grant"]
+        o["session"] = sorted(g.get_token(at).scope)
+        it = s.get_endpoint("introspection")
+        i = it.process_request(it.parse_request({"token": at, "client_id": cid, "client_secret": rec["client_secret"]}))["response_args"]
+        isc = i.get("scope", "")
+        o["introspect"] = sorted(isc.split(" ") if isinstance(isc, str) and isc else (isc or []))
+        o["r"] = "ok"
+    except Exception as e:
+        return {"r": "exc", "how": type(e).__name__ + ":" + str(e)[:80]}
+    return o
 
 
 XW = dict(authorize=16, redeem=26, parse=1, process=1, refresh=12, exchange=30, userinfo=1, introspect=8, revokeEp=1, revokeTok=1,
@@ -93,6 +161,8 @@ def _jwt_scope(tok):
 
 
 def impl(c):
+    if c["t"] == "grant2":
+        return _grant2_impl(c)
     ops = _ops_for(c)
     R = prov.Runner(c["oidc"], c["jwt"], usage=c.get("usage"))
     steps = []
@@ -122,15 +192,34 @@ def _owner(R, hnd):
 
 
 def model_lines(c, obs):
+    if c["t"] == "grant2":
+        a = G2_CLIENTS[c["client"]]
+        return ["prov\tccscope\t" + ("none" if a is None else "some:" + enc_list(a))]
     return [prov.cfg_line(c["oidc"], c["jwt"], c.get("usage"))] + [prov.model_line(o) for o in obs["ops"]]
 
 
 def compare(c, obs, outs):
+    if c["t"] == "grant2":
+        if obs["r"] != "ok":
+            return [f"{c['grant']} grant of {c['client']} did not complete: {obs}"]
+        m = sorted(dec_list(outs[0]))
+        return [] if m == obs["session"] else [f"{c['grant']} grant of {c['client']}: token scope model={m} impl={obs['session']}"]
     return prov.compare_history(obs["ops"], obs["steps"], outs)
 
 
 def oracle(c, obs):
     v = []
+    if c["t"] == "grant2":
+        if obs["r"] != "ok":
+            return v
+        conf = set(G2_CLIENTS[c["client"]] or [])
+        for view in ("session", "response", "jwt", "introspect"):
+            if obs.get(view) is not None and not set(obs[view]) <= conf:
+                v.append({"cls": "scope-escalation", "grant": c["grant"], "client": c["client"], "view": view, "extra": sorted(set(obs[view]) - conf)})
+        views = {k: obs[k] for k in ("session", "response", "jwt", "introspect") if obs.get(k) is not None}
+        if len({json.dumps(x) for x in views.values()}) > 1:
+            v.append({"cls": "views-disagree", "grant": c["grant"], "views": views})
+        return v
     authorised = {}   # grant handle -> set of authorised scopes
     for i, st in enumerate(obs["steps"]):
         o, r = obs["ops"][i], st["raw"]
@@ -174,9 +263,13 @@ def known_key(c, v, known):
 
 
 def classify(c, obs):
+    if c["t"] == "grant2":
+        return f"grant2:{c['grant']}:{c['client']}:{obs['r']}"
     return ("oidc" if c["oidc"] else "oauth2") + ":" + ("jwt" if c["jwt"] else "opaque")
 
 
 def nontrivial(c, obs):
+    if c["t"] == "grant2":
+        return True
     return any((o[0] == "refresh" and o[3] is not None) or (o[0] == "exchange" and st["raw"][0] == "exchanged")
                for o, st in zip(obs["ops"], obs["steps"]))
